@@ -115,10 +115,9 @@ claim("C04",
       "Flattener::fold_expr is external (ghost log of (expression, frame in effect)); slices drop the rest of resolve_special_func / "
       "translate_windowed; unpack_as_int_literal and sqlparser value construction are trusted by contract.")
 
-prop("C18", ["dialect_select", "set_ops"],
+prop("C18", ["dialect_select", "set_ops", "header_frame"],
      select={"set_ops": lambda n: n.split(".", 1)[1] in ("WR1", "WR2", "attach_ctes.safety", "attach_ctes.loop_exit")},
-     not_covered="that nothing behind the resolution reads the option or the header again is NOT proved in general (the thorough sweep executes s-string and loop programs for every dialect; "
-                 "only the WITH clause is under contract: it is a function of the CTEs, set_ops WR1-2); 'the choice never changes which programs the resolver accepts' is argued from signatures only; that two dialect values "
+     not_covered="that nothing behind the resolution depends on HOW the dialect was given is checked only as a syntactic frame (header_frame: the functions that read the `target` key of the query definition, the uses of translate_query's `dialect` parameter - a textual scan of the tree, not a proof about values), by the WITH clause being a function of the CTEs (set_ops WR1-2) and by the executed thorough sweep; 'the choice never changes which programs the resolver accepts' is argued from signatures only; that two dialect values "
                  "produce the same SQL is not needed (the same value reaches the generator on both routes)")
 claim("C18",
       "Proved on the real code for all (option, header) pairs: sql::compile hands the option's dialect to the generator unchanged (CS1); "
